@@ -76,8 +76,12 @@ def read_chunked(fmt, data, K, lazy, prepend, hdr_len=0, joined=False):
             break
         chunks.append(p[1])
     if joined and status == "Stop" and tables:
+        if joined == "heads":
+            for t_ in tables:                                   # the head of EVERY chunk (selections sharing the chunks' tables) is looked at, the chunks themselves are not
+                outcome(formats.project_table, t_[:2])
         if joined == "peek" and len(tables) > 1:
-            outcome(formats.project_table, tables[0])          # every column of the FIRST chunk is looked at before the chunks are joined
+            outcome(formats.project_table, tables[0][:2])      # the head of the first chunk (a selection that shares the chunk's tables) is looked at,
+            outcome(formats.project_table, tables[0])          # then every column of the FIRST chunk, before the chunks are joined
         p = outcome(lambda: formats.project_table(_join(tables)))
         if p[0] == "err":
             status, msg = "JoinFail", "np.concatenate of the chunks: " + p[1]
@@ -172,12 +176,12 @@ def check_vector(v):
                 drift.append({"cfg": cfg, "family": fam, "model": {"sizes": v["sizes"], "reads": v["reads"], "lines": v["lines"]},
                               "code": {"sizes": res["sizes"], "reads": res["reads"], "lines": res["lines"][-1:]}})
         # the same chunks concatenated by the library (np.concatenate) instead of row by row; also after a look at the first chunk only
-        for jn in (True, "peek"):
+        for jn in (True, "peek", "heads"):
             resj = read_chunked(fmt, data, K, lazy, cfg["mode"] == "prepend", joined=jn)
             n += 1
             gotj = [r for c in resj["chunks"] for r in c]
             if resj["status"] == "JoinFail" or (resj["status"] == "Stop" and res["status"] == "Stop" and gotj != rows):
-                bad.append({"what": "np.concatenate of the chunks differs from the file's entries", "tags": dict(tags0, lazy=lazy, op="read_chunks+concatenate", first_chunk_looked_at=jn == "peek"),
+                bad.append({"what": "np.concatenate of the chunks differs from the file's entries", "tags": dict(tags0, lazy=lazy, op="read_chunks+concatenate", first_chunk_looked_at=jn == "peek", heads_looked_at=jn == "heads"),
                             "vector": v, "expected": rows, "observed": resj["msg"] or gotj})
         # the chunk stream re-cut into chunks of exactly nl entries (parser.chunk_lines): still the file's entries, in order
         if res["status"] == "Stop" and len(rows) >= 2:
@@ -208,7 +212,7 @@ def record_trace(job):
     K = job["K"]
     src = job["src"]
     if src in ("mem", "mem-carry"):
-        res = read_chunked(fmt, data, K, job["lazy"], src == "mem-carry", joined=(("peek" if job["tid"] % 2 else True) if job.get("joined") else False))
+        res = read_chunked(fmt, data, K, job["lazy"], src == "mem-carry", joined=(("peek", "heads", True)[job["tid"] % 3] if job.get("joined") else False))
         if res["status"] == "JoinFail":
             res["status"] = "Stop"          # the read completed; what it delivered could not be concatenated: nothing delivered, Stop is rejected
     else:
